@@ -512,9 +512,6 @@ func vgCheckSourceInfo(names *vgLocNames, fd *descriptorpb.FileDescriptorProto, 
 		for _, d := range loc.GetLeadingDetachedComments() {
 			verifAssert(d == "detached "+want, "detached comments are not altered")
 		}
-		// comments are kept or dropped together (dropped only for a message reduced to a namespace)
-		verifAssert((loc.LeadingComments == nil) == (loc.TrailingComments == nil) && (loc.LeadingComments == nil) == (len(loc.GetLeadingDetachedComments()) == 0),
-			"leading, trailing and detached comments are kept or dropped together")
 	}
 	// imports that were reachable only through a public import are new in this file and have no location
 	newDeps := 0
